@@ -19,6 +19,12 @@ def model_op(o, node):
         kind = o["line"].split(" ")[0]
     if kind in NOOPS:
         return {"node": node, "op": "noop", "k": "", "v": "", "ver": 0, "n": 0}
+    # a user record / a permission list is an unversioned write of a `$$' key (applied locally, forwarded by a
+    # secondary, re-emitted as `replicate <db> <key> -1 <value>')
+    if kind == "create-user":
+        return {"node": node, "op": "set", "k": "$$user_" + op["u"], "v": op.get("v", ""), "ver": -1, "n": 0}
+    if kind == "set-permissions":
+        return {"node": node, "op": "set", "k": "$$permission_$" + op["u"], "v": op.get("v", ""), "ver": -1, "n": 0}
     if kind not in SUPPORTED or op.get("d", "d") != "d":
         return None
     if kind == "set":
@@ -39,10 +45,11 @@ def plan(case):
     for i, o in enumerate(case["ops"]):
         if i < start:
             continue
-        if o.get("c", "c") not in ("c", "c2"):
+        if o.get("c", "c") not in ("c", "c2", "a"):
             return None
         m = model_op(o, o["node"])
-        if m is None or " " in m["k"] or m["k"].startswith("$"):
+        if m is None or " " in m["k"] or (m["k"].startswith("$") and not m["k"].startswith("$$user_")
+                                          and not m["k"].startswith("$$permission_")):
             return None
         ops[i] = m
     return start, ops
@@ -52,7 +59,7 @@ def conv_state(st):
     nodes = {}
     for n, v in st["nodes"].items():
         keys = v.get("data", {}).get("d", {}).get("keys", {})
-        nodes[n] = {"data": {k: [x[0], x[1], x[2]] for k, x in keys.items() if not k.startswith("$")},
+        nodes[n] = {"data": {k: [x[0], x[1], x[2]] for k, x in keys.items() if k not in ("$connections", "$$token")},
                     "replq": v["replq"], "pending": len(v["pend"])}
     links = {}
     for lk in st["links"]:
